@@ -102,7 +102,7 @@ pub enum iox2_event_open_or_create_error_e {
 impl IntoCInt for EventOpenError {
     fn into_c_int(self) -> c_int {
         (match self {
-            EventOpenError::Interrupt => iox2_event_open_or_create_error_e::C_INTERRUPT,
+            EventOpenError::Interrupt => iox2_event_open_or_create_error_e::O_INTERRUPT,
             EventOpenError::DoesNotExist => iox2_event_open_or_create_error_e::O_DOES_NOT_EXIST,
             EventOpenError::InsufficientPermissions => {
                 iox2_event_open_or_create_error_e::O_INSUFFICIENT_PERMISSIONS
